@@ -409,6 +409,8 @@ class MemoryCache(CacheMixin):
         if state is None:
             return None
         else:
+            if getattr(state, "metadata_only", False):
+                return None
             if state.metadata.get("status") != "ready":
                 return None
             return state.clone()
@@ -429,8 +431,12 @@ class MemoryCache(CacheMixin):
 
     def store_metadata(self, metadata):
         key = metadata["query"]
-        self.storage[key] = self.storage.get(key, State())
-        self.storage[key].metadata = metadata
+        state = self.storage.get(key)
+        if state is None:
+            state = State()
+            state.metadata_only = True  # placeholder: metadata without data must never be served by get
+            self.storage[key] = state
+        state.metadata = metadata
 
         return True
 
